@@ -437,6 +437,8 @@ func StoreMessagePerUserWithSharedDBAndS3(sharedDB *sql.DB, userDB *sql.DB, pars
 		// Store large content or attachments in blobs (in shared database for cross-user deduplication)
 		if len(part.TextContent) > 1024 || part.Filename != "" {
 			var id int64
+			content := part.TextContent
+			storedS3ID := ""
 
 			// Use S3 storage if available and enabled
 			if s3Storage != nil && s3Storage.IsEnabled() {
@@ -446,6 +448,7 @@ func StoreMessagePerUserWithSharedDBAndS3(sharedDB *sql.DB, userDB *sql.DB, pars
 					id, err = db.StoreBlobS3WithEncoding(sharedDB, part.TextContent, s3BlobID, part.ContentTransferEncoding)
 					if err == nil {
 						blobID = sql.NullInt64{Valid: true, Int64: id}
+						storedS3ID = s3BlobID
 						// Clear text content since it's in S3
 						part.TextContent = ""
 						fmt.Printf("Stored attachment in S3 with shared deduplication: %s (blob_id: %d, s3_id: %s)\n", part.Filename, id, s3BlobID)
@@ -466,6 +469,16 @@ func StoreMessagePerUserWithSharedDBAndS3(sharedDB *sql.DB, userDB *sql.DB, pars
 					blobID = sql.NullInt64{Valid: true, Int64: id}
 					part.TextContent = ""
 				}
+			}
+
+			// Blobs are shared by the hash of their decoded content: the row that was
+			// found may hold another transfer encoding or line wrapping of it. A part
+			// is read back from a blob only if the blob holds exactly its octets;
+			// otherwise the part keeps its content inline.
+			if blobID.Valid && !blobHoldsContent(sharedDB, blobID.Int64, content, storedS3ID) {
+				_ = db.DecrementBlobReference(sharedDB, blobID.Int64)
+				blobID = sql.NullInt64{}
+				part.TextContent = content
 			}
 		}
 
@@ -521,6 +534,17 @@ func StoreMessagePerUserWithSharedDBAndS3(sharedDB *sql.DB, userDB *sql.DB, pars
 	}
 
 	return messageID, nil
+}
+
+// blobHoldsContent reports whether the shared blob row holds exactly the given octets
+// (s3BlobID is the content-addressed id of the octets when they were put into S3).
+func blobHoldsContent(sharedDB *sql.DB, blobID int64, content, s3BlobID string) bool {
+	if s3BlobID != "" {
+		stored, storageType, err := db.GetBlobS3BlobID(sharedDB, blobID)
+		return err == nil && storageType == "s3" && stored == s3BlobID
+	}
+	stored, err := db.GetBlob(sharedDB, blobID)
+	return err == nil && stored == content
 }
 
 // ReconstructMessageWithSharedDBAndS3 reconstructs the raw message from database parts with S3 support and shared blob storage
